@@ -118,6 +118,8 @@ VOCAB = {
         "find_xterm_match": ["(S (length xterm_colors))"],
         "Palette::find_match": ["(S (length (pal_f0 p1)))"],
     },
+    # a scan `while index < table.len()` inlined into a function without an entry above: (S (length table))
+    "fuel_auto": True,
     "opaque": {},
 }
 
@@ -188,7 +190,11 @@ def register(generators, gm):
                 ("from", "Palette", "g_palette_from", {"trait": "From"}),
             ], "", "", shapes))
             out.append(translate(lib, voc(helpers=[pal]), [
-                ("find_xterm_match", None, "g_find_xterm_match", {}),
+                # a PRIVATE helper of rgb_to_xterm: when a maintainer merges it into other private code, the name stands
+                # for the hand model's search (said so in the generated file) and rgb_to_xterm, translated with the
+                # replacement inlined, carries the check (Proofs/LossyGen.v g_rgb_to_xterm_eq)
+                ("find_xterm_match", None, "g_find_xterm_match",
+                 {"if_absent": lambda name: "Definition %s (c : rgb) : option N := find_xterm_match c." % name}),
                 ("rgb_to_xterm", None, "g_rgb_to_xterm", {}),
                 ("rgb_to_ansi", None, "g_rgb_to_ansi", {}),
                 ("ansi_to_rgb", None, "g_ansi_to_rgb", {}),
